@@ -67,6 +67,7 @@ extern const VhOp vh_float_ops[];
 extern const VhOp vh_adaptive_ops[];
 extern const VhOp vh_mem_ops[];
 extern const VhOp vh_oom_ops[];
+extern const VhOp vh_thread_ops[];
 extern const VhOp vh_packed_ops[];
 extern const VhOp vh_dim_ops[];
 extern int vh_track; /* vh_alloc.c: allocation tracking on */
